@@ -71,6 +71,11 @@ func (builder *builder[E]) MulAcc(a, b, c frontend.Variable) frontend.Variable {
 	mulBC()
 
 	_a := builder.toVariable(a)
+	if _, aConstant := builder.constantValue(_a); aConstant {
+		// a constant may be one of the builder's shared constants (the result of
+		// a folded IsZero, Cmp, And, ...); never accumulate into it in place.
+		_a = expr.NewLinearExpression(0, _a[0].Coeff)
+	}
 	// copy _a in buffer, use _a as result; so if _a was already a linear expression and
 	// results fits, _a is mutated without performing a new memalloc
 	builder.mbuf2 = builder.mbuf2[:0]
